@@ -342,6 +342,60 @@ def greedy_units(prog: Program, rep, RID: str):
         rep.ok(RID, key, "edge-count variant: every covered edge counts 1 against len * coverage; length variant: lengths on both sides", f"{f.module.relpath}:{tests[0][2]}")
 
 
+def counted_vs_measured(prog: Program, rep, RID: str):
+    """Rows 7a: the collection whose indicators are *summed* and the collection whose size is the *threshold* are the same collection,
+    duplicates included: `sum over c` against `len(set(c))` lets an edge listed twice count twice on the left only (a walk constraint that
+    passes an edge twice, a node-weighted constraint that revisits a node), and the row is met without the other edges.
+    (The formulation table cannot see this: its iteration domains drop set()/list() wrappers - a row quantified over a set or over the
+    list it was built from is the same family of rows, but a *sum* is not.)"""
+    import copy
+    from rules.common import all_local_defs, substitute_locals
+    n_rows = 0
+    for cname, mname in (("AbstractWalkModelDiGraph", "_encode_subset_constraints"), ("AbstractPathModelDAG", "_encode_paths")):
+        f = prog.own_method(cname, mname)
+        defs = all_local_defs(f.node)
+
+        def resolve(e):
+            for _ in range(4):
+                e2 = substitute_locals(e, defs)
+                if norm(e2) == norm(e):
+                    break
+                e = ast.parse(norm(e2), mode="eval").body
+            return e
+        for c in ast.walk(f.node):
+            if not (isinstance(c, ast.Call) and isinstance(c.func, ast.Attribute) and c.func.attr == "add_constraint"):
+                continue
+            nm = next((kw.value for kw in c.keywords if kw.arg == "name"), c.args[1] if len(c.args) > 1 else None)
+            if nm is None or not norm(nm).lstrip("f'\"").startswith("7a"):
+                continue
+            expr = c.args[0] if c.args else next((kw.value for kw in c.keywords if kw.arg == "expr"), None)
+            if not (isinstance(expr, ast.Compare) and len(expr.ops) == 1):
+                raise AnalysisError(f"{cname}.{mname}: row 7a is not a single comparison")
+            key = f"{cname}.{mname}:7a:counted-vs-measured"
+            sums = [q for q in ast.walk(expr) if isinstance(q, ast.Call) and isinstance(q.func, ast.Attribute) and q.func.attr == "quicksum" and q.args and
+                    isinstance(q.args[0], (ast.GeneratorExp, ast.ListComp)) and "edge" in norm(q.args[0].elt)]
+            if len(sums) != 1 or len(sums[0].args[0].generators) != 1:
+                raise AnalysisError(f"{key}: the sum of edge indicators of row 7a not recognised")
+            counted = norm(resolve(sums[0].args[0].generators[0].iter))
+            other = expr.comparators[0] if sums[0] in list(ast.walk(expr.left)) else expr.left
+            lens = [q for q in ast.walk(resolve(other)) if isinstance(q, ast.Call) and isinstance(q.func, ast.Name) and q.func.id == "len" and len(q.args) == 1]
+            n_rows += 1
+            if not lens:
+                # length-weighted variant: the threshold is a sum of lengths over the constraint - judged by the table (coefficients on both sides)
+                rep.ok(RID, key, "threshold is not a count (length-weighted variant): judged by the formulation table", f.loc(c), nontrivial=False)
+                continue
+            measured = {norm(q.args[0]) for q in lens}
+            strip = lambda t: re.sub(r"^(list|tuple|sorted)\((.*)\)$", r"\2", t)
+            if {strip(m_) for m_ in measured} == {strip(counted)}:
+                rep.ok(RID, key, f"the indicators are summed over `{counted}` and the threshold counts the same collection", f.loc(c), sample={"counted": counted, "measured": sorted(measured)})
+            else:
+                rep.violation(RID, key, f"row 7a sums the edge indicators over `{counted}` but its threshold is the size of `{sorted(measured)[0]}`: an edge listed twice in a "
+                              "constraint is counted twice on one side only, so the row is met without the other edges of the constraint (or cannot be met at all) and the "
+                              "constraint is not enforced as documented", f.loc(c))
+    if n_rows < 2:
+        raise AnalysisError(f"counted_vs_measured: {n_rows} rows 7a found, 2 expected")
+
+
 def greedy_rejection(prog: Program, rep, RID: str):
     f = prog.own_method("kFlowDecomp", "_get_solution_with_greedy")
     _quantified_form_guard(f)
@@ -426,6 +480,7 @@ def check(prog: Program, rep):
     rep.rule("C10.R1", "constraint families conform to the frozen formulation table", floor=10)
     conformance(prog, rep, "C10.R1", "C10")
     indicator_caps(prog, rep, "C10.R1")
+    counted_vs_measured(prog, rep, "C10.R1")
     rep.rule("C10.R2", "ignoring is the only skip; ignore set composition", floor=30)
     ignore_only_skip(prog, rep, "C10.R2")
     rep.rule("C10.R3", "error scale 0 implies ignored", floor=5)
